@@ -110,6 +110,10 @@ func OracleC05(c *Case, obs *RunObs) *Failure {
 			return f
 		}
 	}
+	// a resume call that failed with a transient node error and is made again resumes from the same stored bytes
+	if f := retried(c, obs); f != nil {
+		return f
+	}
 	ref := obs.Ref
 	if ref.Class != "done" && ref.Class != "fail" {
 		return nil // step limit (restarts on resume: documented caveat), panic/hang of the reference: not comparable
@@ -354,6 +358,58 @@ func repeatable(c *Case, last, rp *SegObs) *Failure {
 	}
 	if fmt.Sprint(pa) != fmt.Sprint(pb) {
 		return &Failure{fmt.Sprintf("resumed twice from the same stored checkpoint: state pre-handler runs %v the first time, %v the second", pa, pb), "resume-not-repeatable"}
+	}
+	return nil
+}
+
+// callSummary: everything one call showed that does not depend on goroutine scheduling in a forest without Workflow.
+func callSummary(s *SegObs) string {
+	info, _ := json.Marshal(s.Info)
+	ms := multiset(s.Execs, true)
+	ks := make([]string, 0, len(ms))
+	for k, n := range ms {
+		ks = append(ks, fmt.Sprintf("%s*%d", k, n))
+	}
+	sort.Strings(ks)
+	pre := map[int]int{}
+	for _, ev := range s.Events {
+		if ev.Kind == "pre" {
+			pre[ev.ID]++
+		}
+	}
+	mods := make([]string, 0, len(s.Mods))
+	for _, m := range s.Mods {
+		mods = append(mods, m.Path+"="+m.State.String())
+	}
+	sort.Strings(mods)
+	return fmt.Sprintf("%s out=%s info=%s sets=%d execs=%v pre-handlers=%v modifier=%v", s.Class, s.Out, info, s.Sets, ks, pre, mods)
+}
+
+// retried: the retry phase (Case.Retry). The driven run was made once more under another id; its call RetryAt failed
+// with a transient node error and was made again. A failed call writes nothing, so the repeated call resumes from
+// the bytes the preceding interrupt stored, and from there on the run is, call by call, the first driven run.
+func retried(c *Case, obs *RunObs) *Failure {
+	if obs.RetryAt == 0 || len(obs.RetrySegs) == 0 {
+		return nil
+	}
+	what := "nothing failed in it (no lambda started)"
+	if f := obs.RetryFault; f != nil {
+		if f.Class != "fail" {
+			return nil // the injected error did not surface as a failure of the call (not this property's business)
+		}
+		what = fmt.Sprintf("the call failed with a transient node error after %d execution(s) and was made again under the same id", len(f.Execs))
+	}
+	for k := 0; k < len(obs.Segs) || k < len(obs.RetrySegs); k++ {
+		a, b := "(no such call)", "(no such call)"
+		if k < len(obs.Segs) {
+			a = callSummary(obs.Segs[k])
+		}
+		if k < len(obs.RetrySegs) {
+			b = callSummary(obs.RetrySegs[k])
+		}
+		if a != b {
+			return &Failure{fmt.Sprintf("the same compiled graph driven again from the same input (another id), resume call %d: %s; call %d then shows %s, in the first run it showed %s", obs.RetryAt, what, k, b, a), "retry-after-failed-resume-differs"}
+		}
 	}
 	return nil
 }
